@@ -1334,10 +1334,37 @@ class SQLModel:
                 for k in select_columns_node.column_selection
                 if k in subusing
             }
+        elif len(subusing) > 0:
+            # the sub-query has no term list of its own to narrow (e.g. a record conversion): select explicitly
+            subsql = self._select_from_sub_sql(
+                subsql,
+                columns=subusing,
+                view_prefix="select_columns",
+                node=select_columns_node,
+                temp_id_source=temp_id_source,
+            )
         # terms is None when no specific column is needed from the sub-query (e.g. below a row count):
         # leave it selecting its own columns; a list is not a valid terms value
         self._prune_declared_term_dependencies(subsql)
         return subsql
+
+    def _select_from_sub_sql(
+        self, subsql, *, columns, view_prefix, node, temp_id_source
+    ) -> data_algebra.near_sql.NearSQL:
+        """
+        Wrap a sub-query that has no term list in a step selecting the given columns.
+        """
+        columns = list(columns)
+        view_name = view_prefix + "_" + str(temp_id_source[0])
+        temp_id_source[0] = temp_id_source[0] + 1
+        return data_algebra.near_sql.NearSQLUnaryStep(
+            terms={k: None for k in columns},
+            query_name=view_name,
+            quoted_query_name=self.quote_identifier(view_name),
+            sub_sql=subsql.to_bound_near_sql(columns=None),
+            annotation=str(node.to_python_src_(print_sources=False, indent=-1)),
+            ops_key=f"{view_prefix}({node}, {columns})",
+        )
 
     def drop_columns_to_near_sql(
         self,
@@ -1363,6 +1390,18 @@ class SQLModel:
             db_model=self, using=subusing, temp_id_source=temp_id_source
         )
         # /limit columns
+        if subsql.terms is None:
+            # the sub-query has no term list of its own to narrow (e.g. a record conversion): select explicitly
+            subsql = self._select_from_sub_sql(
+                subsql,
+                columns=[
+                    k for k in using if k not in drop_columns_node.column_deletions
+                ],
+                view_prefix="drop_columns",
+                node=drop_columns_node,
+                temp_id_source=temp_id_source,
+            )
+            return subsql
         subsql.terms = {
             k: subsql.terms[k]
             for k in using
